@@ -136,12 +136,11 @@ Apply(c) ==
     ELSE [kind |-> "ok", data |-> ResultData(c), rolls |-> RollsOut(c), pinned |-> Pinned(c),
           loaded |-> LoadedSeq(c), checked |-> CheckedSeq(c)]
 
-\* where the law speaks: chronological chain (the roll dates written in it do not go backwards), a cutoff whenever data is given,
+\* where the law speaks: a cutoff whenever data is given,
 \* kept data that is not empty, well-formed series
 WellSeries(s) == NCols(s) = 1 /\ WellFormed(s) /\ (s.none = 1 => NRows(s) = 0)
 Domain(c) == /\ \A i \in 1..NC(c) : WellSeries(c.L[i])
              /\ Len(c.rolls) = NC(c) /\ c.n >= 0
-             /\ NonDecreasing(SelectSeq(c.rolls, LAMBDA r : r # 0))
              /\ DataGiven(c) => (c.cutoff # 0 /\ WellFormed(c.data))
              /\ DataOK(c) => NRows(Old(c)) > 0
              /\ c.expiry # 0
